@@ -180,6 +180,8 @@ example : exQ.heap.size = 4 ∧ exQ.contains 9 = true ∧ exQ.contains 3 = false
 example : Inv exQ := inv_reachable _
 example : exQ.pop.map (·.1) = some ⟨[3], 4⟩ := by decide +kernel
 example : (exQ.changeScore 5 [9]).isSome = true := by decide +kernel
+example : ((exQ.pop.bind (·.2.pop)).map (·.1)) = some ⟨[1, 2, 0], 9⟩ := by decide +kernel
+example : AStep [] (.push [1] 1) [(1, [1])] .unit ∧ AMap.keys [] = [] := ⟨.push (by simp [AMap.keys]) (.refl _), rfl⟩
 example : (step exQ (.push [0] 4)).2 = .misuse ∧ (step exQ (.change 3 [0])).2 = .misuse := by decide +kernel
 example : run {} [.push [1] 1, .push [2] 2, .change 1 [3], .pop, .get 1, .get 2, .len, .pop, .pop, .isEmpty]
     = [.unit, .unit, .unit, .popped [3] 1, .score none, .score (some [2]), .len 1, .popped [2] 2, .empty,
@@ -252,6 +254,24 @@ theorem find_eq_min_of_class_history (values : List Nat) (ops : List UOp) (x : N
     obtain ⟨hx, hr, _, hc, hmin, _⟩ := find_spec hi h
     exact ⟨hx, hr, hc, hmin⟩
 
+/-- **history form**: in every history of merges and finds from `ComponentFinder(values)`, the `k`-th
+answer, if the operation is `find x`, is the minimum of the class of `x` w.r.t. the pairs merged before
+(`none` = KeyError iff `x` is not a value). -/
+theorem uf_history_finds (values : List Nat) (ops : List UOp) (k : Nat) (hk : k < ops.length) (x : Nat)
+    (hop : ops[k] = .find x) :
+    match (UF.run (UF.init values) ops)[k]'(by rw [ufrun_length]; exact hk) with
+    | none => x ∉ values
+    | some none => False
+    | some (some r) => x ∈ values ∧ r ∈ values ∧
+        Conn (UF.mergedPairs (UF.init values) (ops.take k)) x r ∧
+        ∀ y, y ∈ values → Conn (UF.mergedPairs (UF.init values) (ops.take k)) x y → r ≤ y := by
+  rw [ufrun_getElem _ _ k hk, hop]
+  have := find_eq_min_of_class_history values (ops.take k) x
+  simp only [UF.step]
+  cases h : (UF.exec (UF.init values) (ops.take k)).find x with
+  | none => simpa [h] using this
+  | some p => obtain ⟨u', r⟩ := p; simpa [h] using this
+
 /-- two elements share a representative iff they are connected (finds in sequence, with compression) -/
 theorem same_rep_iff_connected (values : List Nat) (pairs : List (Nat × Nat)) (u u1 u2 : UF)
     (x y rx ry : Nat) (hi : UInv values pairs u) (h1 : u.find x = some (u1, rx))
@@ -261,6 +281,11 @@ theorem same_rep_iff_connected (values : List Nat) (pairs : List (Nat × Nat)) (
   rw [conn_iff_root hi1 hx hy, ← ey]
   obtain ⟨_, _, _, _, _, _, _, rt⟩ := findNode_spec hi.parentLt h1
   rw [rt x, ← ex]
+
+/-- `merge` raises exactly when `x = y` (the `assert`) or a value is unknown (`KeyError`) -/
+theorem merge_raises_iff (values : List Nat) (pairs : List (Nat × Nat)) (u : UF) (x y : Nat)
+    (hi : UInv values pairs u) : u.merge x y = none ↔ (x = y ∨ x ∉ values ∨ y ∉ values) :=
+  merge_none_iff hi
 
 /-! ### non-vacuity -/
 
